@@ -20,7 +20,7 @@ for d in sys.argv[1:]:
             b = subprocess.run(['go', 'build', './...'], cwd='/repo', env=env, capture_output=True, text=True)
             if b.returncode != 0:
                 print(name, 'DOES NOT BUILD', b.stderr[:200]); continue
-            r = subprocess.run(['/verif/bin/octoverif', 'all'], env=env, capture_output=True, text=True)
+            r = subprocess.run([os.environ.get('OCTOVERIF_BIN', '/verif/bin/octoverif'), 'all'], env=env, capture_output=True, text=True)
             alarms = [l for l in r.stdout.splitlines() if not l.startswith('KNOWN') and not l.startswith('VIOLATION') and 'tier=' not in l and not l.startswith('STALE')]
             props = sorted({l.split('property=')[1].split()[0] for l in r.stdout.splitlines() if l.startswith('VIOLATION')})
             print(name, 'ALARM ' + ','.join(props) if props else 'quiet')
